@@ -384,8 +384,45 @@ func (a *mwAnalysis) valueClass(v ssa.Value, depth int) (string, map[int]bool) {
 			}
 		}
 	case *ssa.Call:
-		if f := core.StaticCallee(t); f != nil && strings.HasPrefix(f.Name(), "New") && core.PkgOf(f) == "render" {
+		f := core.StaticCallee(t)
+		if f != nil && strings.HasPrefix(f.Name(), "New") && core.PkgOf(f) == "render" {
 			return "ok", nil
+		}
+		// a helper of the library whose every return is a constant / fresh value (or one of its
+		// parameters, classified at this call)
+		if f != nil && a.w.InLib(f) && len(f.Blocks) > 0 && f.Signature.Results().Len() == 1 && depth < 6 {
+			ps := map[int]bool{}
+			args := core.CallArgs(t)
+			nret := 0
+			for _, in := range allInstrs(f) {
+				ret, ok := in.(*ssa.Return)
+				if !ok {
+					continue
+				}
+				nret++
+				c, p := a.valueClass(ret.Results[0], depth+2)
+				if c == "bad" {
+					return "bad", nil
+				}
+				for i := range p {
+					if i >= len(args) {
+						return "bad", nil
+					}
+					ac, ap := a.valueClass(args[i], depth+2)
+					if ac == "bad" {
+						return "bad", nil
+					}
+					for j := range ap {
+						ps[j] = true
+					}
+				}
+			}
+			if nret > 0 {
+				if len(ps) > 0 {
+					return "param", ps
+				}
+				return "ok", nil
+			}
 		}
 	}
 	return "bad", nil
